@@ -58,6 +58,14 @@ namespace svcanary
       other.set_default ();
     }
 
+    // R02.7: commits a block from the allocator without knowing that its capacity exceeds the
+    // inline capacity (the container would look inlined and never release it)
+    void canary_fresh_unproved (size_ty n)
+    {
+      this->wipe ();
+      this->set_data (this->allocate (n), n, 0);
+    }
+
     // R18.2: allocation failure under noexcept
     void canary_noexcept_alloc (size_ty n) noexcept
     {
